@@ -11,7 +11,9 @@ echo "== $name verify:"; cat $wt/VERIFY.txt
 rm -rf $sc; mkdir -p $sc/repo $sc/verif
 rsync -a --exclude target --exclude .git /repo/ $sc/repo/
 ( cd $sc/repo && git init -q . 2>/dev/null; patch -p1 -s < $wt/mutation.diff ) || { echo "PATCH FAILED"; exit 2; }
-rsync -a --exclude work --exclude 'work-*' --exclude .git --exclude replays --exclude 'harness/target*' $here/ $sc/verif/
+# (the committed state of /verif, so that edits under way do not leak into a run; SEEDPAR_WORKTREE=1 takes the working tree instead)
+if [ -n "$SEEDPAR_WORKTREE" ]; then rsync -a --exclude work --exclude 'work-*' --exclude .git --exclude replays --exclude 'harness/target*' $here/ $sc/verif/
+else git -C $here archive HEAD | tar -x -C $sc/verif; fi
 sed -i "s|path = \"/repo\"|path = \"$sc/repo\"|" $sc/verif/harness/Cargo.toml
 cd $sc/verif
 for c in "$@"; do
